@@ -129,7 +129,7 @@ func argumentRejected(err error) (bool, string) {
 const fc11Text = "cannot import array: elements do not belong to the same type"
 const fc12Text = "can't copy container"
 const fc14Text = "exceeded max nested level"
-const fc13Text ="(*CompositeValue).HashInput" // frame in the internal error's stack
+const fc13Text = "(*CompositeValue).HashInput" // frame in the internal error's stack
 
 type c29Case struct {
 	Type     string `json:"type"`
